@@ -742,7 +742,7 @@ def gen_op(rng, tr, case):
             return None
         ci = rng.randrange(len(tr.layers[t[0]][t[1]]["contours"]))
         if k == "reverse":
-            return [k, t[0], t[1], ci, rng.choice(["reverse", "reverse", "clockwise"])]
+            return [k, t[0], t[1], ci, rng.choice(["reverse", "reverse", "clockwise", "detached-reverse", "detached-clockwise"])]
         if k == "appendPoint":
             return [k, t[0], t[1], ci, rng.choice(["append", "insert"])]
         return [k, t[0], t[1], ci, gen_contour(rng)]
@@ -832,6 +832,7 @@ def kitchen_sink(rng, custom, sweep=1):
     ops += [["penDraw", D, "D", dict(closed=True, segs=["line", "curve", "line"]), "point", "A"],
             ["penDraw", D, "D", dict(closed=True, segs=["line", "curve", "line"]), "segment", None],
             ["reverse", D, "A", 0, "reverse"], ["reverse", D, "A", 1, "clockwise"], ["reverse", D, "A", 0, "reverse"],
+            ["reverse", D, "A", 0, "detached-reverse"], ["reverse", D, "A", 1, "detached-clockwise"],
             ["split", D, "B", 0, 1], ["split", D, "B", 0, 2],
             ["removeSegment", "background", "A", 0, 0, True], ["removeSegment", D, "E", 0, 1, True],
             ["appendPoint", D, "A", 0, "append"], ["appendPoint", D, "A", 1, "insert"],
@@ -878,6 +879,7 @@ def neighbourhood(case, step, rng):
                 G = tr.layers[ln][gn]
                 for ci in range(len(G["contours"])):
                     follow.append(["reverse", ln, gn, ci, "reverse"])
+                    follow.append(["reverse", ln, gn, ci, "detached-reverse"])
                     follow.append(["split", ln, gn, ci, 0])
                     follow.append(["appendPoint", ln, gn, ci, "append"])
                 if G["components"]:
@@ -1221,11 +1223,18 @@ class World(object):
                     pen.addComponent(comp, (1, 0, 0, 1, 10, 10))
         elif k == "reverse":
             _, layer, gname, ci, how = op
-            c = self.glyph(layer, gname)[ci]
-            if how == "reverse":
+            g = self.glyph(layer, gname)
+            c = g[ci]
+            if how.startswith("detached-"):
+                # the contour is reversed while it is outside any glyph (taken out, reversed, put back where it was):
+                # the points it is rebuilt from still have to be of the class it was created with
+                g.removeContour(c)
+            if how.endswith("reverse"):
                 c.reverse()
             else:
                 c.clockwise = not c.clockwise
+            if how.startswith("detached-"):
+                g.insertContour(ci, c)
         elif k == "split":
             _, layer, gname, ci, kk = op
             c = self.glyph(layer, gname)[ci]
